@@ -36,7 +36,11 @@
 //	VER id p7 detached-content|= <decoded pieces>   signed data (genuine, tampered, corrupted): ParsePKCS7, Verify -> ok | err; the pieces
 //	                                      (content, certificates, hashes, signer infos, per-certificate signature verdicts) are what the
 //	                                      library decoded, read through x509/verif_decoders_verif.go: the extracted model of Verify
-//	                                      (coq/P7/P7Model.v) takes its decision from them and must agree
+//	                                      (coq/P7/P7Model.v) takes its decision from them and must agree.  With a trailing field
+//	                                      hist=<a|i>:<c1>,<c2>,... the case is the LAST call of a call history on ONE parsed object:
+//	                                      Verify with Content c1, then c2, ... ("=" as parsed, "." empty; a: field assigned, i: written
+//	                                      in place when the length allows), then Verify with the content of field 3; model and exp= are
+//	                                      those of a single Verify with that content
 //	EC id alg kt mode pos val p7 content cert one byte of an enveloped-data container replaced: parse, decrypt as recipient 1
 //	     -> err | same | diff            (no integrity is promised for CBC content: recorded; for GCM diff is a failure)
 package main
@@ -991,6 +995,42 @@ func runVER(f []string) string {
 	if err != nil {
 		return "err"
 	}
+	// call history on the ONE parsed object (field hist=<mode>:<c1>,<c2>,...): earlier Verify calls with the earlier
+	// contents ("=": the content as parsed, ".": empty), then the call this case is about, with the content f[3].
+	// mode a: the Content field is assigned; mode i: a content of the same length is written into the existing slice
+	// (the caller altering p7.Content in place).  The verdict asked for is the one of the LAST call; the model and the
+	// stated outcome are those of a single Verify with that content (Verify has no memory).
+	setContent := func(tok string, inPlace bool) {
+		if tok == "=" {
+			return
+		}
+		c := []byte{}
+		if tok != "." {
+			c = hx.UnHex(tok)
+		}
+		if inPlace && len(c) == len(p7.Content) && len(c) > 0 {
+			copy(p7.Content, c)
+			return
+		}
+		p7.Content = c
+	}
+	for _, x := range f {
+		if strings.HasPrefix(x, "hist=") && len(x) > 7 {
+			for _, tok := range strings.Split(x[7:], ",") {
+				setContent(tok, x[5] == 'i')
+				_ = p7.Verify()
+			}
+			tok := f[3]
+			if tok == "-" {
+				tok = "."
+			}
+			setContent(tok, x[5] == 'i')
+			if p7.Verify() != nil {
+				return "err"
+			}
+			return "ok"
+		}
+	}
 	if f[3] != "=" {
 		p7.Content = hx.UnHex(f[3])
 	}
@@ -1359,6 +1399,75 @@ func gen(seed uint64, tier string) []string {
 			d3 := append([]byte{}, lib...)
 			d3[len(d3)-1] ^= 1
 			addVER(d3, content, det, "err")
+		}
+	}
+	// call HISTORIES on one parsed object: Verify, change Content, Verify again (a detached signature tried against
+	// several candidate contents; the content supplied after a first failing Verify; attached content altered after a
+	// successful Verify).  Every call of a history is a case of its own (the history up to it is replayed on one parsed
+	// object); model and stated outcome are those of a single Verify with the content present at that call.
+	addHist := func(der []byte, mode string, hist [][]byte, exps []string) {
+		tok := func(c []byte) string {
+			if c == nil {
+				return "="
+			}
+			if len(c) == 0 {
+				return "."
+			}
+			return hx.Hex(c)
+		}
+		for k := 1; k < len(hist); k++ {
+			var prev []string
+			for _, c := range hist[:k] {
+				prev = append(prev, tok(c))
+			}
+			id++
+			line := strings.Replace(verLine(der, hist[k], hist[k] != nil), "#", strconv.Itoa(id), 1)
+			lines = append(lines, line+" exp="+exps[k]+" hist="+mode+":"+strings.Join(prev, ","))
+		}
+	}
+	histKinds := []string{"sm2-sm3", "sm2-sm3b", "sm2-sha256", "rsa-sha1", "rsa-sha1e", "sm2-lib", "rsa-lib"}
+	for ki, kind := range histKinds {
+		lib := strings.HasSuffix(kind, "-lib")
+		for _, at := range []bool{true, false} {
+			if lib && !at {
+				continue
+			}
+			for _, det := range []bool{false, true} {
+				n := []int{1, 16, 33, 300, 1000}[(ki+int(seed))%5]
+				if det {
+					n = []int{40, 7, 129, 1, 64}[(ki+int(seed))%5]
+				}
+				c := r.Bytes(n)
+				var der []byte
+				if lib {
+					var err error
+					if der, err = makeLibSigned(kind, det, c); err != nil {
+						continue
+					}
+				} else {
+					der = makeSM2Signed(kind, at, det, c, 0)
+				}
+				forged := r.Bytes(n)
+				if bytes.Equal(forged, c) {
+					forged[0] ^= 0xff
+				}
+				alt := append([]byte{}, c...)
+				alt[r.Intn(len(alt))] ^= byte(1 << uint(r.Intn(8)))
+				longer := append(append([]byte{}, c...), 0)
+				empty := []byte{}
+				if det {
+					addHist(der, "a", [][]byte{c, forged, c, alt, c}, []string{"ok", "err", "ok", "err", "ok"})
+					addHist(der, "a", [][]byte{nil, c, longer, c}, []string{"err", "ok", "err", "ok"})
+					addHist(der, "a", [][]byte{empty, c, empty}, []string{"err", "ok", "err"})
+					addHist(der, "a", [][]byte{forged, c, c, forged}, []string{"err", "ok", "ok", "err"})
+					addHist(der, "i", [][]byte{c, alt, c, forged}, []string{"ok", "err", "ok", "err"})
+				} else {
+					addHist(der, "a", [][]byte{nil, alt, c, forged, c}, []string{"ok", "err", "ok", "err", "ok"})
+					addHist(der, "i", [][]byte{nil, alt, c, alt}, []string{"ok", "err", "ok", "err"})
+					addHist(der, "a", [][]byte{nil, empty, c, longer}, []string{"ok", "err", "ok", "err"})
+					addHist(der, "a", [][]byte{alt, c, c}, []string{"err", "ok", "ok"})
+				}
+			}
 		}
 	}
 	for _, at := range []bool{true, false} {
